@@ -53,6 +53,14 @@ CHECKS = {
             "stateless model checking of the multi-threaded decoder under the controlled scheduler (busy-wait loops and progress stores hooked): all schedules with <= 1 delay (2 thorough) for 2-4 threads; canonical/mirrored schedules up to 16 threads under ASan+UBSan",
             "Every schedule with at most one delay of complete decode sessions (threads 2,3,(4)) on tiled / superres / SB128 / 10-bit / hierarchical streams is executed; pictures must equal the single-thread decode, no deadlock/livelock/crash, teardown must return.",
             "volatile-flag handshakes assumed acquire/release (x86); data races not decided (no TSan pass in this tier); encoder-produced streams <= 256x256", "4/C09"),
+    "C12": ("param_set_h + documentation model", "exploration",
+            "bounded-exhaustive enumeration of configuration deviations (every value min-2..max+2 of each documented range, all pairs inside documented coupling groups; thorough: all field pairs over boundary values) against a reference model transcribed from the documentation",
+            "Each case runs svt_av1_enc_set_parameter on a fresh handle; EB_ErrorBadParameter must be returned iff the documentation model (97 rows with cited lines, 6 cross constraints) rejects. The model re-verifies its citations against the documents on every run.",
+            "large ranges are enumerated at their boundaries only; 3 ambiguous and 8 sparsely documented fields are judged only where guide and header agree; 26 undocumented fields are never deviated", "4/C12"),
+    "C13": ("param_def_h + encdrv", "exploration",
+            "exhaustive enumeration of prior contents of the caller's configuration memory (256 uniform fills + every structure element x 4 poison patterns), compared with the zero-prefilled run",
+            "Field-by-field equality of the returned structure (padding excluded, table completeness checked at run time), set_parameter acceptance and identical packets of a 5-picture encode for every prior content.",
+            "one element poisoned at a time or uniform fills, not arbitrary combinations; 64x64 clip, logical_processors 1", "4/C13"),
 }
 
 NOT_YET = {}
